@@ -7,6 +7,7 @@ well-typed point the (cache-erased) evaluator returns the outcome of the big-ste
 -/
 import Kap.Proofs.C04Trap
 import Kap.Proofs.C04
+import Kap.Proofs.C04Lib
 namespace Kap.C04
 section
 variable {F : Type} (ctx : Ctx F)
@@ -86,29 +87,14 @@ theorem callFn_refCall (fn : String) (args : List (Value F)) (st : FnState F) (h
       · rename_i v; exact absurd rfl (hne v)
       · exact ⟨rfl, hr0⟩
   simp only [h5, if_false]
-  by_cases h6 : fn = "strSubstring"
-  · simp only [h6, if_true]
+  cases hb : Lib.builtin ctx.ops fn args with
+  | some r => cases r <;> exact ⟨rfl, hr0⟩
+  | none =>
+    simp only []
     split
-    · rename_i s start stop
-      by_cases hin : 0 ≤ start ∧ start ≤ stop ∧ stop ≤ (s.utf8ByteSize : Int)
-      · have g1 : ¬ start < 0 := by omega
-        have g2 : ¬ stop < 0 := by omega
-        have g3 : ¬ stop > (s.utf8ByteSize : Int) := by omega
-        have g4 : ¬ start > stop := by omega
-        simp only [g1, g2, g3, g4, hin, if_false, if_true, and_self]
-        generalize ctx.call "strSubstring" [Value.str s, Value.int start, Value.int stop] = oc
-        rcases oc with _ | (v | _) <;> exact ⟨rfl, hr0⟩
-      · simp only [hin, if_false]
-        refine ⟨?_, ?_⟩ <;> (repeat' split) <;> first | rfl | exact hr0 | (exfalso; omega)
-    · rename_i hne
-      split
-      · rename_i s a b; exact absurd rfl (hne s a b)
-      · exact ⟨rfl, hr0⟩
-  simp only [h6, if_false]
-  split
-  · generalize ctx.call fn args = oc
-    rcases oc with _ | (v | _) <;> exact ⟨rfl, hr0⟩
-  · exact ⟨rfl, hr0⟩
+    · generalize ctx.call fn args = oc
+      rcases oc with _ | (v | _) <;> exact ⟨rfl, hr0⟩
+    · exact ⟨rfl, hr0⟩
 
 /-! ### typing: `Type()` against the reference typing -/
 
@@ -338,12 +324,13 @@ def noMissingLit : Expr F → Bool
   | .call3 _ a b d => noMissingLit a && noMissingLit b && noMissingLit d
   | _ => true
 
-/-- the signature of a builtin the model defines itself declares the type the builtin returns; no builtin
-returns a missing or invalid value. -/
+/-- the signature of a builtin the model defines itself declares the type the builtin returns (`Lib.builtinRet`
+for the stateless ones); no builtin returns a missing or invalid value. -/
 def nativeSigOK (s : Sig) : Bool :=
   (s.name != "count" || s.ret == .int) && (s.name != "sigma" || s.ret == .float) &&
   (s.name != "spread" || s.ret == .float) && (s.name != "isPresent" || s.ret == .bool) &&
-  (s.name != "if" || s.dom == [.bool, s.ret, s.ret]) && s.ret != .missing && s.ret != .invalid
+  (s.name != "if" || s.dom == [.bool, s.ret, s.ret]) && s.ret != .missing && s.ret != .invalid &&
+  (match Lib.builtinRet s.name with | some r => s.ret == r | none => true)
 
 /-- what the proofs need from the builtins: signatures as above, and library functions return values of the
 type their signature declares. -/
@@ -373,8 +360,8 @@ theorem call_ty (hF : FnOK ctx) (fn : String) (args : List (Value F)) (st : FnSt
   obtain ⟨s, hmem, hname, hdom, hret⟩ := sigType_mem ctx hs
   have hok := hF.sigs s hmem
   simp only [nativeSigOK, Bool.and_eq_true, Bool.or_eq_true, bne_iff_ne, beq_iff_eq, ne_eq] at hok
-  obtain ⟨⟨⟨⟨⟨⟨o1, o2⟩, o3⟩, o4⟩, o5⟩, _⟩, _⟩ := hok
-  rw [hname] at o1 o2 o3 o4 o5
+  obtain ⟨⟨⟨⟨⟨⟨⟨o1, o2⟩, o3⟩, o4⟩, o5⟩, _⟩, _⟩, o8⟩ := hok
+  rw [hname] at o1 o2 o3 o4 o5 o8
   unfold callFn at hv
   by_cases h1 : fn = "count"
   · simp only [h1, if_true] at hv
@@ -427,24 +414,26 @@ theorem call_ty (hF : FnOK ctx) (fn : String) (args : List (Value F)) (st : FnSt
       · simp [Value.ty, ← hret, o4]
     · cases hv
   simp only [h5, if_false] at hv
-  by_cases h6 : fn = "strSubstring"
-  · simp only [h6, if_true] at hv
+  cases hb : Lib.builtin ctx.ops fn args with
+  | some r =>
+    simp only [hb] at hv
+    cases r with
+    | none => cases hv
+    | some v0 =>
+      cases hv
+      have := Lib.builtin_ty ctx.ops fn args v hb
+      rw [this] at o8
+      have o9 : t = v.ty := by simpa [hret] using o8
+      exact o9.symm
+  | none =>
+    simp only [hb] at hv
     split at hv
-    · rename_i s0 start stop
-      repeat' split at hv
-      all_goals first | (cases hv; done) | skip
-      rename_i v0 hcall
-      cases hv
-      exact hF.oracle _ _ _ _ hcall (by rw [← h6]; exact hs)
+    · split at hv
+      · rename_i v0 hcall
+        cases hv
+        exact hF.oracle _ _ _ _ hcall hs
+      · cases hv
     · cases hv
-  simp only [h6, if_false] at hv
-  split at hv
-  · split at hv
-    · rename_i v0 hcall
-      cases hv
-      exact hF.oracle _ _ _ _ hcall hs
-    · cases hv
-  · cases hv
 
 theorem ty_ne_invalid (v : Value F) : v.ty ≠ .invalid := by cases v <;> simp [Value.ty]
 
@@ -459,7 +448,7 @@ theorem typeRef_shape (hF : FnOK ctx) (e : Expr F) (t : Ty) (hwf : noMissingLit 
     have hok := hF.sigs s hmem
     simp only [nativeSigOK, Bool.and_eq_true, bne_iff_ne, ne_eq] at hok
     rw [hret] at hok
-    exact ⟨hok.2, hok.1.2⟩
+    exact ⟨hok.1.2, hok.1.1.2⟩
   cases e with
   | lit v =>
     simp only [typeRef] at h
